@@ -12,7 +12,7 @@ import mpmath
 import z3
 
 from pysx import engine, loader, calc
-from pysx.harness import CheckBase, main, run_pinned, concrete, test_rows
+from pysx.harness import CheckBase, main, run_pinned, concrete, test_rows, NotPinned
 from pysx.values import SymInt, PREC
 
 M31 = 1 << 31
@@ -71,6 +71,49 @@ def zclear(rate, accel, jerk):
     return z3.If(R1 < 0, M31 - 1, z3.If(R1 > 0, 0, z3.If(R2 < 0, M31 - 1, z3.If(R2 > 0, 0, z3.If(R3 < 0, M31 - 1, 0)))))
 
 
+def capture(ec):
+    """Record the results of round() and the arguments of mpmath.floor() made by the code under test."""
+    rounded, floored = [], []
+    shim_round, shim_floor = ec.round, ec.mpmath.floor
+
+    def capturing_round(x, *a):
+        r = shim_round(x, *a)
+        rounded.append(r)
+        return r
+
+    def capturing_floor(x):
+        floored.append(x)
+        return shim_floor(x)
+    ec.round = capturing_round
+    ec.mpmath.floor = capturing_floor
+    return rounded, floored
+
+
+def hint_lemmas(run, tag, X, rounded, floored):
+    """Staging lemmas (proved on this path, then assumed; a failed or undecided one is simply not used):
+    some intermediate of the code equals the oracle total S(T) - the last integer produced by round(), or
+    the exact model value of an argument of floor() (as S(T) or S(T)/2^31).  They split the non-linear
+    polynomial identity from the linear div/mod reasoning of the final obligations."""
+    from pysx.values import SymQ
+    used = 0
+    if rounded and isinstance(rounded[-1], SymInt):
+        v = run.prove(tag + ":lemma round()=S(T)", rounded[-1].t == X, soft=True, record_cex=False)
+        if v == "unsat":
+            run.assume(rounded[-1].t == X)
+            used += 1
+    if not used:
+        for q in floored[-1:]:
+            if isinstance(q, SymQ):
+                for nm, scale in (("S(T)/2^31", M31), ("S(T)", 1)):
+                    v = run.prove(tag + ":lemma floor-argument=" + nm, q.num * scale == X * q.den, soft=True, record_cex=False,
+                                  rlimit=200_000_000)
+                    if v == "unsat":
+                        run.assume(q.num * scale == X * q.den)
+                        used += 1
+                        break
+    return used
+
+
 class Check(CheckBase):
     pid = "C02"
     title = "T3 move prediction = third-order recurrence"
@@ -98,14 +141,14 @@ class Check(CheckBase):
         cs = [{"label": "lemma"}]
         tmax = TMAX_DIST if tier == "quick" else TMAX_DIST_THOROUGH
         for mode in ("given", "clear", "default"):
-            cs.append({"label": "move_dist_t3/" + mode, "fn": "move_dist_t3", "mode": mode, "tmax": tmax})
+            cs.append({"label": "move_dist_t3/" + mode, "fn": "move_dist_t3", "mode": mode, "tmax": tmax, "split_depth": 4})
         cs.append({"label": "rate_t3", "fn": "rate_t3", "mode": None})
         for mode in ("given", "clear"):
-            cs.append({"label": "zero-jerk/" + mode, "fn": "zero-jerk", "mode": mode, "tmax": tmax})
+            cs.append({"label": "zero-jerk/" + mode, "fn": "zero-jerk", "mode": mode, "tmax": tmax, "split_depth": 4})
         return cs
 
     def config(self, tier, case):
-        return engine.Config(ob_rlimit=int(os.environ.get("C02_RLIMIT", "600000000")))
+        return engine.Config(ob_rlimit=int(os.environ.get("C02_RLIMIT", "600000000")), soft_alternatives=6)
 
     def expected_reach(self, tier):
         return ["lemma", "move_dist_t3/given:snap", "move_dist_t3/given:nosnap", "move_dist_t3/clear:snap",
@@ -153,14 +196,7 @@ class Check(CheckBase):
         else:
             accum = "clear"
         if fn == "zero-jerk":
-            rounded = []
-            shim_round = ec.round
-
-            def capturing_round0(x, *a):
-                r = shim_round(x, *a)
-                rounded.append(r)
-                return r
-            ec.round = capturing_round0
+            rounded, floored = capture(ec)
             res = ec.move_dist_t3(T, rate, accel, 0, accum)
             res2 = ec.move_dist_lt(rate, accel, T, accum)
             run.reach(tag)
@@ -171,13 +207,7 @@ class Check(CheckBase):
                 acc0 = z3.If(z3.Or(r1 < 0, z3.And(r1 == 0, accel.t < 0)), M31 - 1, 0)
             X = run.fresh_int("S")
             run.assume(2 * X == 2 * acc0 + 2 * T.t * r0 + accel.t * T.t * (T.t + 1))
-            if rounded and isinstance(rounded[-1], SymInt):
-                rounded = [rounded[-1]]    # the last round() call is the one applied to the accumulated total
-                v = run.prove(tag + ":lemma round()=S(T)", rounded[0].t == X)
-                if v == "unsat":
-                    run.assume(rounded[0].t == X)
-                elif v == "sat":
-                    return
+            hint_lemmas(run, tag, X, rounded, floored)
             for i, nm, ox in ((0, "position", X / M31), (1, "accumulator", X % M31)):
                 for which, rr in (("t3", res), ("lt", res2)):
                     a = rr[i]
@@ -185,14 +215,7 @@ class Check(CheckBase):
             calc.precision_obligations(run, tag)
             return
         jerk = run.int("jerk", -RMAX, RMAX)
-        rounded = []
-        shim_round = ec.round
-
-        def capturing_round(x, *a):
-            r = shim_round(x, *a)
-            rounded.append(r)
-            return r
-        ec.round = capturing_round
+        rounded, floored = capture(ec)
         res = ec.move_dist_t3(T, rate, accel, jerk, accum) if mode != "default" else ec.move_dist_t3(T, rate, accel, jerk)
         if mode != "given":
             acc0 = zclear(rate.t, accel.t, jerk.t)
@@ -206,14 +229,7 @@ class Check(CheckBase):
         run.reach(tag + (":snap" if snap else ":nosnap"))
         pos, acc = res
         assert isinstance(pos, (SymInt, int)) and isinstance(acc, (SymInt, int))
-        if rounded and isinstance(rounded[-1], SymInt):
-            rounded = [rounded[-1]]    # the last round() call is the one applied to the accumulated total
-            # hint lemma (proved, then assumed): the integer produced by the code's round() is S(T)
-            v = run.prove(tag + ":lemma round()=S(T)", rounded[0].t == X)
-            if v == "unsat":
-                run.assume(rounded[0].t == X)
-            elif v == "sat":
-                return        # already refuted on this path: position/accumulator would only repeat it (and are slow without the lemma)
+        hint_lemmas(run, tag, X, rounded, floored)
         run.prove(tag + ":position", (pos.t if isinstance(pos, SymInt) else pos) == X / M31)
         run.prove(tag + ":accumulator", (acc.t if isinstance(acc, SymInt) else acc) == X % M31)
         calc.precision_obligations(run, tag)
@@ -289,9 +305,11 @@ class Check(CheckBase):
                 calc.begin_path()
                 ec = calc.load_ebb_calc()
                 r = ec.move_dist_t3(sym(T), sym(rate), sym(accel), sym(jerk), accum if accum == "clear" else sym(accum))
-                assert not PREC.ambient_ops and not PREC.flags, (PREC.ambient_ops, PREC.flags)
                 return concrete(tuple(r))
-            got = run_pinned(h)
+            try:
+                got = run_pinned(h)
+            except NotPinned:
+                continue          # the code's result depends on a rounding direction the model leaves open
             assert tuple(got) == tuple(exp), "translator validation failed on %r: %r vs %r" % ((T, rate, accel, jerk, accum), got, exp)
             if T <= 3000:
                 assert oracle_py(T, rate, accel, jerk, accum) == oracle_loop(T, rate, accel, jerk, accum)[0]
